@@ -91,8 +91,16 @@ GenWhy(r) ==
     ELSE IF ~r.fresh_send_ok THEN "GenFreshSendLost"
     ELSE ""
 
+(* C17: a malformed inbound block while the application floods fire-and-forget sends must not stop the line *)
+WedgeWhy(r) ==
+    IF r.fault /= "" THEN "HarnessFault"
+    ELSE IF r.blocks_after_violation = 0 THEN "MalformedBlockWedgedTheLine"
+    ELSE IF r.probe_send_result /= "nil" THEN "SendAfterMalformedBlockNeverCompleted"
+    ELSE IF ~r.alive \/ r.state /= "S" THEN "LinkTakenDown"
+    ELSE ""
+
 Why(r) == CASE r.t = "e4send" -> SendWhy(r) [] r.t = "e4recv" -> RecvWhy(r) [] r.t = "e4line" -> LineWhy(r)
-            [] r.t = "e4once" -> OnceWhy(r) [] r.t = "e4cont" -> ContWhy(r) [] r.t = "e4gen" -> GenWhy(r) [] OTHER -> "UnknownLine"
+            [] r.t = "e4once" -> OnceWhy(r) [] r.t = "e4cont" -> ContWhy(r) [] r.t = "e4gen" -> GenWhy(r) [] r.t = "e4wedge" -> WedgeWhy(r) [] OTHER -> "UnknownLine"
 NextO == /\ l < Len(T) /\ l' = l + 1
          /\ LET w == Why(T[l + 1]) IN IF w = "" THEN TRUE ELSE PrintT(<<"REJECT", l + 1, w>>)
 Judged == TRUE
